@@ -2,21 +2,196 @@ import CogentModel.Model.Csv
 import CogentModel.Model.TableOps
 import CogentModel.Spec.TableRows
 import CogentModel.Proofs.CsvRoundtrip
-/-! # C20 — property theorems (tables follow the list-of-rows model; delimited text round-trips) -/
-namespace CogentModel.C20
-open CogentModel.Csv
+import CogentModel.Proofs.TableOpsLemmas
+/-! # C20 — property theorems
 
-/-- For ALL lists of records of ALL cells that contain no CR/LF (any other character, including the
+Tables follow the list-of-rows model (`rowsOf` is the abstraction from the column store to the list
+of row tuples; `TableRows.*` are the operations on a plain list of rows) and delimited text
+round-trips through the csv writer / reader.  All statements are for **all** column stores
+(any cell type `α`, any number of rows and columns, duplicate keys, …); side conditions
+(`WF`: columns have equal length; selected positions exist) are what `Table`'s constructor
+guarantees. -/
+namespace CogentModel.C20
+open CogentModel.Csv CogentModel.TableOps
+
+/-! ## delimited text -/
+
+/-- For ALL lists of records of ALL cells without CR/LF (any other character, including the
 delimiter, the quote character, spaces; empty cells, empty records, the lone-empty-field record):
-reading back what the QUOTE_MINIMAL writer wrote returns exactly the records. -/
+reading back what the QUOTE_MINIMAL writer wrote returns exactly the records.
+(Induction over the reader state machine: characters of a field, fields of a record, records.) -/
 theorem csv_roundtrip (d : Dialect) (g : GoodDialect d) (rows : List Row)
     (hn : ∀ r ∈ rows, ∀ f ∈ r, NoNL f) :
     csvRead d.delim (csvWrite d rows) = .ok rows :=
   csv_roundtrip' g rows hn
 
 example : GoodDialect ⟨'\t', ['\n']⟩ := ⟨rfl, by decide, by decide⟩
-example : ∀ r ∈ [[['a', '\t', 'b'], [], ['q', '"', 'r']], [[]], [], [[], []]], ∀ f ∈ r, NoNL f := by simp [NoNL, isNL]
+example : GoodDialect ⟨',', ['\n']⟩ := ⟨rfl, by decide, by decide⟩
+example : ∀ r ∈ [[['a', '\t', 'b'], [], ['q', '"', 'r']], [[]], [], [[], []]], ∀ f ∈ r, NoNL f := by
+  simp [NoNL, isNL]
 example : csvWrite ⟨'\t', ['\n']⟩ [[['a', '\t', 'b'], [], ['q', '"', 'r']], [[]], [], [[], []]]
     = "\"a\tb\"\t\t\"q\"\"r\"\n\"\"\n\n\t\n".toList := by decide
+
+/-- `Table.write` (title row, header, rows, legend row) followed by `load_delimited` returns the
+header, the cell text, the title and the legend unchanged. -/
+theorem table_text_roundtrip (d : Dialect) (g : GoodDialect d) (title legend : Str) (header : Row)
+    (rows : List Row) (ht : NoNL title) (hl : NoNL legend) (hh : ∀ f ∈ header, NoNL f)
+    (hn : ∀ r ∈ rows, ∀ f ∈ r, NoNL f) :
+    loadDelimited d.delim (title ≠ []) (legend ≠ []) (tableWrite d title header rows legend)
+      = .ok (header, rows, title, legend) :=
+  table_text_roundtrip' g title legend header rows ht hl hh hn
+
+example : tableWrite ⟨',', ['\n']⟩ ['T'] [['a'], ['b', ',']] [[[], ['"']]] [] = "T\na,\"b,\"\n,\"\"\"\"\n".toList := by
+  decide
+
+/-! ## joins -/
+
+/-- **The hash join is the nested-loop join**, for all row lists, including duplicate keys on either
+side, in the nested loop's order: selecting rows by the two index lists the dictionary-based
+algorithm of `inner_join` produces gives `[out r s for r in R for s in S if key r == key s]`. -/
+theorem hash_join_eq_nested_loop {ρ σ τ κ : Type} [DecidableEq κ] (R : List ρ) (S : List σ)
+    (kr : ρ → κ) (ks : σ → κ) (out : ρ → σ → τ) (dr : ρ) (ds : σ) :
+    List.zipWith (fun i j => out (R.getD i dr) (S.getD j ds))
+        (hashJoinSel (R.map kr) (S.map ks)).1 (hashJoinSel (R.map kr) (S.map ks)).2
+      = R.flatMap (fun r => S.filterMap (fun s => if kr r = ks s then some (out r s) else none)) :=
+  hashJoin_eq_nestedLoop' R S kr ks out dr ds
+
+example : hashJoinSel ["a", "b", "a"] ["a", "c", "a"] = ([0, 0, 2, 2], [0, 2, 0, 2]) := by decide
+
+/-- `inner_join` on the column store gives the rows of the nested-loop join of the two row lists
+(key columns `kS`/`kO`, kept columns of other `keep`; python `==` on keys through `key`). -/
+theorem inner_join_rows_eq {α κ : Type} [DecidableEq κ] (dflt : α) (key : α → κ) (kS kO keep : List Nat)
+    (self other : List (List α)) (hs : self ≠ []) (hwS : WF self) (hwO : WF other)
+    (hkS : kS ≠ []) (hkO : kO ≠ [])
+    (hbS : ∀ j ∈ kS, j < self.length) (hbO : ∀ j ∈ kO, j < other.length) :
+    rowsOf dflt (innerJoinCols dflt key kS kO keep self other)
+      = TableRows.innerJoin dflt key kS kO keep (rowsOf dflt self) (rowsOf dflt other) :=
+  innerJoinCols_rows dflt key kS kO keep self other hs hwS hwO hkS hkO hbS hbO
+
+example : rowsOf 0 (innerJoinCols 0 id [0] [0] [1] [[1, 2, 1], [10, 20, 30]] [[1, 1, 3], [7, 8, 9]])
+    = [[1, 10, 7], [1, 10, 8], [1, 30, 7], [1, 30, 8]] := by decide
+
+/-- `cross_join` gives `[r + s for r in R for s in S]` (itertools.product order). -/
+theorem cross_join_is_product {α : Type} (dflt : α) (self other : List (List α)) (hs : self ≠ []) :
+    rowsOf dflt (crossJoinCols dflt self other) = TableRows.crossJoin (rowsOf dflt self) (rowsOf dflt other) :=
+  crossJoinCols_rows dflt self other hs
+
+example : rowsOf 0 (crossJoinCols 0 [[1, 2]] [[7, 8, 9]]) = [[1, 7], [1, 8], [1, 9], [2, 7], [2, 8], [2, 9]] := by
+  decide
+
+/-! ## sorting -/
+
+/-- `sorted`: for every transitive, total record comparison `le` (numpy's `argsort` on the record
+array; any sorting permutation — the model uses a merge sort), the result's rows are a permutation
+of the table's rows and are in order under `le` on the (transformed) key records. -/
+theorem sorted_is_sorted_perm {α κ : Type} (dflt : α) (le : κ → κ → Bool)
+    (ht : ∀ a b c, le a b = true → le b c = true → le a c = true)
+    (htot : ∀ a b, (le a b || le b a) = true)
+    (keyOf : List α → κ) (cols : List (List α)) :
+    (rowsOf dflt (sortedCols dflt le keyOf cols)).Perm (rowsOf dflt cols) ∧
+    TableRows.SortedBy le keyOf (rowsOf dflt (sortedCols dflt le keyOf cols)) :=
+  sortedCols_perm_sorted dflt le ht htot keyOf cols
+
+/-- … in particular for the field-by-field comparison of key records the model of `Table.sorted` uses. -/
+theorem sorted_lex_is_sorted_perm (keyOf : List Cell → List SKey) (cols : List (List Cell)) :
+    (rowsOf dfl (sortedCols dfl lexLe keyOf cols)).Perm (rowsOf dfl cols) ∧
+    TableRows.SortedBy lexLe keyOf (rowsOf dfl (sortedCols dfl lexLe keyOf cols)) :=
+  sortedCols_perm_sorted dfl lexLe lexLe_trans lexLe_total keyOf cols
+
+example : lexLe [.num 1, .str [97]] [.num 1, .str [97, 98]] = true := by decide
+
+/-- `_reverse_num` (`x * -1`) reverses the order of numbers exactly. -/
+theorem reverse_num_antitone (a b : Rat) : a ≤ b ↔ reverseNum b ≤ reverseNum a :=
+  reverseNum_antitone' a b
+
+example : reverseNum 2 = -2 := by rw [reverseNum, Rat.mul_neg, Rat.mul_one]
+
+/-- `_reverse_str` (code point c ↦ 255 - c) reverses the order of two strings over code points < 256
+**provided neither is a proper prefix of the other**. -/
+theorem reverse_str_antitone_partial (s t : List Nat) (hs : ∀ c ∈ s, c < 256) (ht : ∀ c ∈ t, c < 256)
+    (h1 : ¬ ProperPrefix s t) (h2 : ¬ ProperPrefix t s) :
+    natLexLe (reverseStr s) (reverseStr t) = natLexLe t s :=
+  reverseStr_antitone' s t hs ht h1 h2
+
+example : ¬ ProperPrefix [97, 98] [98] ∧ ¬ ProperPrefix [98] [97, 98] := by
+  constructor <;> rintro ⟨u, _, h⟩ <;> simp at h
+
+/- FULL STATEMENT (not proved): `∀ s t, (∀ c ∈ s, c < 256) → (∀ c ∈ t, c < 256) →
+   natLexLe (reverseStr s) (reverseStr t) = natLexLe t s` — i.e. the character translation is an
+   order reversal on all strings, which is what `Table.sorted(reverse=...)` needs to be a descending
+   sort.  It is FALSE: a proper prefix sorts first before *and* after the translation
+   (`reverse_str_counter`), so 'a','ab','b' reverse-sorts to b,a,ab.  Recorded as the known finding
+   C20-sorted-reverse-str-prefix (replayed on the real code on every run). -/
+
+/-- the witness: "a" ≤ "ab", but after the translation "ab" does not come before "a" -/
+theorem reverse_str_counter :
+    natLexLe [97] [97, 98] = true ∧ natLexLe (reverseStr [97, 98]) (reverseStr [97]) = false := by decide
+
+/-! ## row-wise operations -/
+
+/-- `filtered`: rows kept by the callback on the selected fields, in order. -/
+theorem filtered_eq {α : Type} (dflt : α) (p : List α → Bool) (sel : List Nat) (cols : List (List α)) :
+    rowsOf dflt (filteredCols dflt p sel cols) = TableRows.filtered dflt p sel (rowsOf dflt cols) :=
+  filteredCols_rows dflt p sel cols
+
+example : rowsOf 0 (filteredCols 0 (fun r => decide (r.getD 0 0 > 1)) [1] [[1, 2, 3], [5, 0, 7]]) = [[1, 5], [3, 7]] := by
+  decide
+
+/-- `count_unique`: the count stored for a key tuple is the number of rows projecting onto it. -/
+theorem count_unique_eq {α κ : Type} [DecidableEq κ] (dflt : α) (key : α → κ) (sel : List Nat)
+    (cols : List (List α)) (hw : WF cols) (hs : sel ≠ []) (hb : ∀ j ∈ sel, j < cols.length) (k : List κ) :
+    countLookup k (countUniqueCols dflt key sel cols) = TableRows.countOf dflt key sel (rowsOf dflt cols) k := by
+  unfold countUniqueCols TableRows.countOf
+  rw [countLookup_countAll, rowsOf_selectCols dflt sel cols hw hs hb]
+  simp only [countLookup, TableRows.select, List.map_map, Nat.zero_add]
+  rfl
+
+example : countUniqueCols 0 id [0] [[1, 2, 1], [5, 5, 5]] = [([1], 2), ([2], 1)] := by decide
+
+/-- `distinct_values`: exactly the key tuples that occur among the rows, each once. -/
+theorem distinct_eq {α κ : Type} [DecidableEq κ] (dflt : α) (key : α → κ) (sel : List Nat)
+    (cols : List (List α)) (hw : WF cols) (hs : sel ≠ []) (hb : ∀ j ∈ sel, j < cols.length) (k : List κ) :
+    (k ∈ distinctCols dflt key sel cols ↔ TableRows.isDistinctValue dflt key sel (rowsOf dflt cols) k) ∧
+    (distinctCols dflt key sel cols).Nodup := by
+  unfold distinctCols TableRows.isDistinctValue
+  constructor
+  · rw [mem_setOfList, rowsOf_selectCols dflt sel cols hw hs hb]
+    simp only [TableRows.select, List.map_map, List.not_mem_nil, false_or]
+    rfl
+  · exact nodup_setOfList _ _ List.nodup_nil
+
+example : distinctCols 0 id [0] [[1, 2, 1], [5, 5, 5]] = [[1], [2]] := by decide
+
+/-- column selection (`get_columns`, `table[:, columns]`): every row restricted to the positions. -/
+theorem select_columns_eq {α : Type} (dflt : α) (sel : List Nat) (cols : List (List α)) (hw : WF cols)
+    (hs : sel ≠ []) (hb : ∀ j ∈ sel, j < cols.length) :
+    rowsOf dflt (selectCols sel cols) = TableRows.select dflt sel (rowsOf dflt cols) :=
+  rowsOf_selectCols dflt sel cols hw hs hb
+
+example : WF [[1, 2], [3, 4]] := by intro c hc; simp at hc; rcases hc with rfl | rfl <;> rfl
+
+/-- `with_new_column`: every row gets the callback's value on its selected fields appended. -/
+theorem with_new_column_eq {α : Type} (dflt : α) (f : List α → α) (sel : List Nat) (cols : List (List α))
+    (h : cols ≠ []) :
+    rowsOf dflt (withNewColumnCols dflt f sel cols) = TableRows.withNewColumn dflt f sel (rowsOf dflt cols) :=
+  withNewColumnCols_rows dflt f sel cols h
+
+example : rowsOf 0 (withNewColumnCols 0 List.sum [0, 1] [[1, 2], [3, 4]]) = [[1, 3, 4], [2, 4, 6]] := by decide
+
+/-- `appended` (any number of tables whose columns are aligned with `self`'s): the rows are the
+concatenation of the tables' rows, and the result is again well formed. -/
+theorem appended_eq {α : Type} (dflt : α) (ts : List (List (List α))) (L : Nat)
+    (hw : ∀ t ∈ ts, WF t) (hL : ∀ t ∈ ts, t.length = L) (hne : ts ≠ []) :
+    rowsOf dflt (appendCols ts) = TableRows.appended (ts.map (rowsOf dflt)) ∧ WF (appendCols ts) :=
+  ⟨(appendCols_rows dflt ts L hw hL hne).1, (appendCols_rows dflt ts L hw hL hne).2.1⟩
+
+example : rowsOf 0 (appendCols [[[1, 2], [3, 4]], [[5], [6]], [[], []]]) = [[1, 3], [2, 4], [5, 6]] := by decide
+
+/-- transposing a (well-formed, non-empty) column store twice gives it back. -/
+theorem transposed_involutive {α : Type} (dflt : α) (cols : List (List α)) (hw : WF cols) (hn : nrows cols ≠ 0) :
+    transposeCols dflt (transposeCols dflt cols) = cols :=
+  transposeCols_involutive dflt cols hw hn
+
+example : transposeCols 0 [[1, 2, 3], [4, 5, 6]] = [[1, 4], [2, 5], [3, 6]] := by decide
 
 end CogentModel.C20
